@@ -1101,7 +1101,7 @@ def run(repo, check):
     check.run_rule(rule_r14, repo)
     check.run_rule(rule_r5, repo)
     from sa.rules import c06
-    r6 = c06.rule_r3(repo)
+    r6 = check.call(c06.rule_r3, repo)
     r6.rule = 'C09.R6'
     r6.title = 'the wiring state is re-initialised for every subset (shared with C06.R3)'
     for f in r6.findings:
